@@ -5,7 +5,7 @@ import Aplang.Spec.WF
 
 Same shape as `Proofs/ParserSound`: a `Post` triple per statement function, induction hypothesis for the
 smaller fuel as a structure. A successful statement function
-* returns a statement that is well-formed for the admission flags it was called with (`WFStmt`, the shared
+* returns a statement that is well-formed for the scope flags it was called with (`WFStmt`, the shared
   definition of `Spec/WF`), and leaves the flags as it found them;
 * moved the cursor over a bracket-balanced stretch of tokens (`Bal`).
 -/
@@ -196,7 +196,7 @@ theorem Shape.first {e c} (h : Shape e c) : ∃ t r, c = t :: r ∧ isExprStart 
 
 /-! ## a stretch of balanced tokens between two cursor states -/
 
-/-- the cursor moved over a balanced stretch; the admission flags are as before -/
+/-- the cursor moved over a balanced stretch; the scope flags are as before -/
 def CB (s s' : PState) : Prop := ∃ c, Consumed s s' c ∧ Bal c
 
 theorem CB.refl (s : PState) : CB s s := ⟨[], Consumed.refl s, .nil⟩
